@@ -48,7 +48,7 @@ use crate::{
     indexer::{Indexer, sentry::Sentry},
     inflight::{
         Enqueue, FetchOrTake, FetchTarget, InflightManager, Notifier, OptionalFetch, OptionalFetchBuilder,
-        RequiredFetch, RequiredFetchBuilder, Waiter,
+        RequiredFetch, RequiredFetchBuilder, Taken, Waiter,
     },
     pipe::{ArcPipe, NoopPipe},
     record::{Data, Record},
@@ -172,13 +172,15 @@ where
         record: Arc<Record<E>>,
         fetch: Option<usize>,
         garbages: &mut Vec<(Event, Arc<Record<E>>)>,
-        notifiers: &mut Vec<Notifier<Option<RawCacheEntry<E, S, I>>>>,
+        taken: &mut Option<Taken<E, S, I>>,
     ) -> bool {
-        let taken = self.inflights.lock().take(record.hash(), record.key(), fetch);
+        // What is taken out of the in-flight table is handed to the caller as it is: it holds user values (the entry's
+        // copy of the key, an unused fetch builder) that must be dropped outside the lock.
+        *taken = self.inflights.lock().take(record.hash(), record.key(), fetch);
         if fetch.is_some() && taken.is_none() {
             return false;
         }
-        *notifiers = taken.unwrap_or_default();
+        let notifiers = taken.as_ref().map(|t| t.notifiers.len()).unwrap_or_default();
 
         if record.properties().phantom().unwrap_or_default() {
             if let Some(old) = self.indexer.remove(record.hash(), record.key()) {
@@ -195,7 +197,7 @@ where
 
                 garbages.push((Event::Replace, old));
             }
-            record.inc_refs(notifiers.len() + 1);
+            record.inc_refs(notifiers + 1);
             garbages.push((Event::Remove, record));
             self.metrics.memory_insert.increase(1);
             return true;
@@ -235,7 +237,7 @@ where
         self.usage += weight;
         // Increase the reference count within the lock section.
         // The reference count of the new record must be at the moment.
-        record.inc_refs(notifiers.len() + 1);
+        record.inc_refs(notifiers + 1);
 
         match self.usage.cmp(&old_usage) {
             std::cmp::Ordering::Greater => self.metrics.memory_usage.increase((self.usage - old_usage) as _),
@@ -628,15 +630,17 @@ where
     #[cfg_attr(feature = "tracing", fastrace::trace(name = "foyer::memory::raw::insert_inner"))]
     fn insert_inner(&self, record: Arc<Record<E>>, source: Source, fetch: Option<usize>) -> Option<RawCacheEntry<E, S, I>> {
         let mut garbages = vec![];
-        let mut notifiers = vec![];
+        let mut taken = None;
 
         let inserted = self.inner.shards[self.shard(record.hash())]
             .write()
-            .with(|mut shard| shard.emplace(record.clone(), fetch, &mut garbages, &mut notifiers));
+            .with(|mut shard| shard.emplace(record.clone(), fetch, &mut garbages, &mut taken));
         if !inserted {
             // The result of a fetch that an explicit insert has overtaken.
             return None;
         }
+        // (The rest of what was taken from the in-flight table is dropped here, out of the lock critical section.)
+        let notifiers = taken.map(|taken| taken.notifiers).unwrap_or_default();
 
         // Deallocate data out of the lock critical section.
         //
@@ -1055,6 +1059,10 @@ where
     {
         let hash = self.inner.hash_builder.hash_one(key);
 
+        // The fetch builders are the caller's: when they are not needed (a hit) they must be dropped after the shard lock
+        // is released, not inside the critical section - they may own entry handles of this very cache.
+        let (mut fo, mut fr) = (Some(fo), Some(fr));
+
         // Make sure cache query and inflight query are in the same lock critical section.
         let extract = |key: &Q, opt: Option<Arc<Record<E>>>, inflights: &Arc<Mutex<InflightManager<E, S, I>>>| {
             opt.map(|record| {
@@ -1065,7 +1073,7 @@ where
                     source: Source::Memory,
                 }))
             })
-            .unwrap_or_else(|| match inflights.lock().enqueue(hash, key, fr()) {
+            .unwrap_or_else(|| match inflights.lock().enqueue(hash, key, (fr.take().unwrap())()) {
                 Enqueue::Lead {
                     id,
                     close,
@@ -1074,7 +1082,7 @@ where
                 } => {
                     let fetch = RawFetch {
                         state: RawFetchState::Init {
-                            optional_fetch_builder: fo(),
+                            optional_fetch_builder: (fo.take().unwrap())(),
                             required_fetch_builder,
                         },
                         id,
@@ -1474,8 +1482,9 @@ where
         key: &E::Key,
         inflights: &Arc<Mutex<InflightManager<E, S, I>>>,
     ) -> Try<E, S, I, C> {
-        let notifiers = match inflights.lock().take(hash, key, Some(id)) {
-            Some(notifiers) => notifiers,
+        let taken = inflights.lock().take(hash, key, Some(id));
+        let notifiers = match taken {
+            Some(taken) => taken.notifiers,
             None => {
                 return Try::Ready;
             }
@@ -1520,12 +1529,12 @@ where
             RawFetchState::Notify { .. } | RawFetchState::Ready => return,
             RawFetchState::Init { .. } | RawFetchState::FetchOptional { .. } | RawFetchState::FetchRequired { .. } => {}
         }
-        if let Some(notifiers) = this
+        let taken = this
             .inflights
             .lock()
-            .take(*this.hash, this.key.as_ref().unwrap(), Some(*this.id))
-        {
-            for notifier in notifiers {
+            .take(*this.hash, this.key.as_ref().unwrap(), Some(*this.id));
+        if let Some(taken) = taken {
+            for notifier in taken.notifiers {
                 let _ =
                     notifier
                         .send(Err(Error::new(ErrorKind::TaskCancelled, "fetch task cancelled")
